@@ -3040,7 +3040,7 @@ impl Actor {
 
         let mut pledge_delta = TokenAmount::zero();
 
-        let (burn_amount, reward_amount) = rt.transaction(|st: &mut State, rt| {
+        let (mut burn_amount, reward_amount) = rt.transaction(|st: &mut State, rt| {
             let mut info = get_miner_info(rt.store(), st)?;
 
             // Verify miner hasn't already been faulted
@@ -3084,10 +3084,15 @@ impl Actor {
             Ok((burn_amount, reward_amount))
         })?;
 
-        if let Err(e) =
-            extract_send_result(rt.send_simple(&reporter, METHOD_SEND, None, reward_amount))
-        {
+        if let Err(e) = extract_send_result(rt.send_simple(
+            &reporter,
+            METHOD_SEND,
+            None,
+            reward_amount.clone(),
+        )) {
             error!("failed to send reward: {}", e);
+            // The reward was deducted from the penalty; if it can't be paid out it is still owed.
+            burn_amount += reward_amount;
         }
 
         burn_funds(rt, burn_amount)?;
